@@ -31,6 +31,7 @@ type c10Peer struct {
 	Passive  bool   `json:"passive,omitempty"`
 	SpinCb   string `json:"spin_cb,omitempty"` // a plugin callback that busy-waits a little
 	SpinLong bool   `json:"spin_long,omitempty"`
+	SpinUs   int64  `json:"spin_us,omitempty"`
 }
 
 type c10Conc struct {
@@ -57,6 +58,9 @@ func c10Spec(i int, p c10Peer) world.PeerSpec {
 		us := int64(30)
 		if p.SpinLong {
 			us = 400
+		}
+		if p.SpinUs > 0 {
+			us = p.SpinUs
 		}
 		sp.Plugin.SpinUs = map[string]int64{p.SpinCb: us}
 	}
@@ -657,6 +661,10 @@ func TestC10(t *testing.T) {
 	// step in between: what the race detector needs to see accesses of
 	// different sessions as unordered (C01/C04 invariants as the functional oracle)
 	hx.Rapid(r, t, "free_running_sessions", r.N(600, 8000), genFreeRunning, frProp(t, r, "free_running_sessions"))
+
+	// thousands of connect-retry expiries with stalled / just-finishing dials:
+	// the FSM and its dial goroutines under the race detector
+	hx.Rapid(r, t, "dial_retry_storm", r.N(30, 600), genC05Storm, c05StormProp(t, r, "dial_retry_storm"))
 }
 
 var _ = netip.Addr{}
